@@ -23,7 +23,7 @@ var decKinds = []string{"SR", "RR", "SDES", "BYE", "APP", "NACK", "RRR", "TWCC",
 var subDecKinds = []string{"HDR", "RREP", "CHUNK", "ITEM", "RLC", "SVC", "DELTA"}
 var hdrKinds = []string{"SR", "RR", "SDES", "BYE", "NACK", "RRR", "CCFB", "PLI", "SLI", "REMB", "FIR"}
 
-func encOp(p rtcp.Packet) string   { return "enc." + kindName(p) + " " + bodyTokens(p) }
+func encOp(p rtcp.Packet) string             { return "enc." + kindName(p) + " " + bodyTokens(p) }
 func opWith(op string, p rtcp.Packet) string { return op + "." + kindName(p) + " " + bodyTokens(p) }
 
 func genPacketList(r *Rng, wild bool, max int) []rtcp.Packet {
@@ -64,6 +64,12 @@ func genCompoundSeq(r *Rng) []rtcp.Packet {
 			s.Chunks[ci].Items = append(s.Chunks[ci].Items, rtcp.SourceDescriptionItem{Type: rtcp.SDESCNAME, Text: string(r.Bytes(r.Len(5)))})
 			if r.Bool() { // CNAME not first
 				s.Chunks[ci].Items = append([]rtcp.SourceDescriptionItem{{Type: rtcp.SDESNote, Text: "x"}}, s.Chunks[ci].Items...)
+			}
+			if r.Bool() { // CNAME not last
+				s.Chunks[ci].Items = append(s.Chunks[ci].Items, rtcp.SourceDescriptionItem{Type: rtcp.SDESType(2 + r.Intn(7)), Text: string(r.Bytes(r.Len(4)))})
+			}
+			if r.Chance(1, 3) && len(s.Chunks) < 31 { // a further chunk without CNAME behind it
+				s.Chunks = append(s.Chunks, rtcp.SourceDescriptionChunk{Source: uint32(r.Bits(32, 32)), Items: []rtcp.SourceDescriptionItem{{Type: rtcp.SDESEmail, Text: "e"}}})
 			}
 			p = s
 		case 3: // SDES without CNAME
@@ -224,7 +230,9 @@ func genOps(prop string, r *Rng, n int, tier string, emit func(string)) {
 		for i := 0; i < n; i++ {
 			k := allKinds[r.Intn(len(allKinds))]
 			p := genValue(r, k, prop == "C02" && r.Chance(1, 7))
-			switch r.Intn(8) {
+			switch r.Intn(9) {
+			case 8: // CompoundPacket is a packet type too: its own Marshal/Unmarshal pair
+				emit("crt " + packetsTokens(genCompoundSeq(r)))
 			case 7: // a forwarder inserting a packet of its own
 				emit("relay " + hx(genRelayDatagram(r)))
 			case 6: // own decoder round trip
@@ -313,9 +321,9 @@ func genOps(prop string, r *Rng, n int, tier string, emit func(string)) {
 			}
 		} else {
 			for i := 0; i < n/20; i++ {
-			emit(genReuseOp(r))
-		}
-		emit(genBigDecvOp(r, 1)) // FIR: the cheapest of the three in the model's list-indexing decoder
+				emit(genReuseOp(r))
+			}
+			emit(genBigDecvOp(r, 1)) // FIR: the cheapest of the three in the model's list-indexing decoder
 		}
 		{ // an APP packet of 262144 octets: length field 0xFFFF
 			v := &rtcp.ApplicationDefined{SubType: uint8(r.Bits(5, 5)), SSRC: uint32(r.U64()), Name: string(r.Bytes(4)), Data: r.Bytes(262144 - 12)}
@@ -422,6 +430,31 @@ func genOps(prop string, r *Rng, n int, tier string, emit func(string)) {
 			if r.Chance(1, 4) {
 				emit("rt 1 " + packetTokens(genValue(r, allKinds[r.Intn(len(allKinds))], false)))
 			}
+			if r.Chance(1, 2) { // a frame shaped for decoder T but carrying another registered (packet type, FMT) pair
+				f := validFrame(r, t)
+				if len(f) >= 4 {
+					pf := registeredPairs[r.Intn(len(registeredPairs))]
+					f[1] = byte(pf[0])
+					if pf[0] == 205 || pf[0] == 206 || r.Bool() {
+						f[0] = f[0]&0xE0 | byte(pf[1])
+					}
+					emit("dec." + t + " " + hx(f))
+				}
+			}
+			if r.Chance(1, 40) {
+				b := polyglotRembTwcc(r)
+				emit("dec.REMB " + hx(b))
+				emit("dec.TWCC " + hx(b))
+				emit("udec " + hx(b))
+			}
+		}
+		{ // frames of unregistered types at the largest frame sizes (length field 0xFFFE, 0xFFFF)
+			for _, words := range []int{0xFFFF, 0x10000} {
+				b := behindHeader(r, r.Pick(192, 199, 208), int(r.Bits(5, 5)), 4*words-4)
+				binary.BigEndian.PutUint16(b[2:], uint16(words-1))
+				emit("udec " + hx(b))
+				emit("dec.RAW " + hx(b))
+			}
 		}
 	case "C08":
 		for i := 0; i < n; i++ {
@@ -466,7 +499,17 @@ func genOps(prop string, r *Rng, n int, tier string, emit func(string)) {
 				emit("cenc " + tk)
 			case 3:
 				if b, err := rtcp.Marshal(ps); err == nil {
+					switch r.Intn(4) {
+					case 0: // 1-3 stray octets behind the last packet
+						b = append(b, r.Bytes(1+r.Intn(3))...)
+					case 1: // a truncated further frame
+						f := validFrame(r, allKinds[r.Intn(len(allKinds))])
+						b = append(b, f[:r.Intn(len(f))]...)
+					}
 					emit("cdec " + hx(b))
+					if r.Bool() {
+						emit("crt " + tk)
+					}
 				} else {
 					emit("cval " + tk)
 				}
@@ -522,6 +565,9 @@ func genOps(prop string, r *Rng, n int, tier string, emit func(string)) {
 			}
 			if r.Chance(1, 5) {
 				b = mutate(r, b)
+			}
+			if r.Chance(1, 25) {
+				b = genTwccWrapValid(r)
 			}
 			emit("dec.TWCC " + hx(b))
 			if r.Chance(1, 4) {
@@ -904,4 +950,20 @@ func genReuseOp(r *Rng) string {
 		return genDecodeInput(r, k)
 	}
 	return "reuse." + k + " " + hx(in()) + " " + hx(in())
+}
+
+var registeredPairs = [][2]int{{200, 0}, {201, 0}, {202, 1}, {203, 1}, {204, 0}, {205, 1}, {205, 5}, {205, 11}, {205, 15}, {206, 1}, {206, 2}, {206, 4}, {206, 15}, {207, 0}}
+
+// a well-formed TWCC packet (205/15) whose octets also satisfy every check of the REMB decoder except the packet
+// type: media SSRC 0, base sequence number and status count spelling "REMB", reference time high octet = SSRC count
+func polyglotRembTwcc(r *Rng) []byte {
+	b := []byte{0x8f, 205, 0, 6}
+	b = binary.BigEndian.AppendUint32(b, uint32(r.U64()))
+	b = append(b, 0, 0, 0, 0)
+	b = append(b, 'R', 'E', 'M', 'B')                             // base sequence number 0x5245, packet status count 0x4d42 = 19778
+	b = append(b, 2, byte(r.U64()), byte(r.U64()), byte(r.U64())) // reference time (24) | fb pkt count
+	for _, run := range []int{8191, 8191, 3396, 0} {              // run-length chunks, symbol "not received": 19778 statuses, no deltas
+		b = binary.BigEndian.AppendUint16(b, uint16(run))
+	}
+	return b
 }
